@@ -52,7 +52,7 @@ def plane_card(n, d):
     return 'p', list(n) + [d]
 
 
-RANGES = [(0, 1), (0, 0), (-1, 1), (-2, -1), (1, 2)]
+RANGES = [(0, 1), (0, 0), (-1, 1), (-2, -1), (1, 2), (2, 2), (-1, -1)]
 UNIVS = [0, 1, 2, 3]
 
 
@@ -290,7 +290,8 @@ def canaries():
     st = b_arrays2d(Chooser(()))
     ok = check_state('arrays-2d', st)['ok']
     # reference with the two index directions exchanged must be noticed
-    st2 = b_arrays2d(Chooser((0, 0, 0, 0, 0, 0, 0, 1, 2, 3)))
+    from ..explore import PresetChooser
+    st2 = b_arrays2d(PresetChooser({'a1': 1, 'a2': 2, 'a3': 3}))
     lat = st2.cell(20)
     lat.base = [lat.base[1], lat.base[0]]
     return [('c06-baseline', ok), ('c06-swapped-base-vectors-detected', not check_state('arrays-2d', st2)['ok'])]
